@@ -1845,8 +1845,15 @@ class DynamicSeedingInstrumentation(transformer.DynamicSeedingInstrumentationAda
         ):
             return
 
-        maybe_compare_index = COMPARE_OP_POS
-        maybe_compare = node.try_get_instruction(maybe_compare_index)
+        # The index is used to insert into the basic block, which also holds
+        # pseudo-instructions (TryBegin/TryEnd) and instructions of other adapters.
+        maybe_compare: Instr | None
+        try:
+            maybe_compare_index, maybe_compare = node.find_instruction_by_original_index(
+                COMPARE_OP_POS
+            )
+        except IndexError:
+            maybe_compare_index, maybe_compare = COMPARE_OP_POS, None
 
         if (
             maybe_compare is not None
